@@ -4,7 +4,7 @@
    unreachable, or refutes it with a witness).  There is no single model for this property;
    panic-freedom of the unmodelled native code is explored by the harness c11 (every native
    function / method with boundary and arbitrary arguments under catch_unwind), not proved. *)
-Require RV.Props.C02 RV.Props.C07 RV.Props.C10 RV.Props.C24 RV.Props.C27 RV.Props.C35 RV.Props.C38 RV.Props.C41.
+Require RV.Props.C02 RV.Props.C07 RV.Props.C10 RV.Props.C24 RV.Props.C26 RV.Props.C27 RV.Props.C35 RV.Props.C36 RV.Props.C38 RV.Props.C41 RV.Props.C49.
 Require RV.Props.C03.
 
 (* the list is pinned: removing or weakening one of these theorems breaks this file *)
@@ -13,11 +13,16 @@ Definition C11_no_panic_collection :=
     RV.Props.C07.C07_no_panic,                 (* transaction tracker ring arithmetic *)
     RV.Props.C10.C10_no_panic,                 (* proof locks: lock/unlock counters and amounts *)
     RV.Props.C10.C10_no_panic_other,
+    RV.Props.C10.C10_nf_no_panic,              (* non-fungible proof locks *)
     RV.Props.C24.C24_no_panic,                 (* Decimal / PreciseDecimal checked arithmetic *)
+    RV.Props.C26.C26_powi_never_panics,        (* checked_powi *)
     RV.Props.C27.C27_parse_no_panic,           (* Decimal::from_str *)
     RV.Props.C35.C35_no_panic,                 (* subintent structure validation *)
+    RV.Props.C36.C36_static_no_panic,          (* static manifest validation *)
     RV.Props.C38.C38_take_no_panic,            (* static resource movement bounds *)
-    RV.Props.C41.C41_no_panic_partial ).       (* pool contribution / redemption arithmetic *)
+    RV.Props.C41.C41_no_panic,                 (* pool contribution / redemption arithmetic *)
+    RV.Props.C49.C49_io_no_panic_bounded,      (* limits module counters (bounded) *)
+    RV.Props.C49.C49_no_panic_except_known ).  (* limits module: no panic outside the known class *)
 
 (* in the ledger model the only host panic of the resource layer is LiquidFungibleResource::put's
    expect("Overflow") (and the asserts of fee finalisation): every accepted operation list is, by
